@@ -134,9 +134,87 @@ def run_chain(case: dict):
     return res
 
 
+def run_dropped(case: dict):
+    """The application connects, keeps no reference to the APIClient (a helper that connects, subscribes and
+    returns) and the session lives on in the event loop: when it ends -- whatever the cause -- the stop callback given
+    at connect time is still invoked exactly once with the right flag."""
+    import base64
+    import gc
+
+    from aioesphomeapi import api_pb2 as pb
+
+    from vf.runner import CaseResult, HarnessError, Violation
+    from vf.simloop import START, IterationCap
+    from vf.simnet import Env, make_client
+
+    res = CaseResult()
+    noise = bool(case.get("noise"))
+    K = float(case.get("K", 4.0))
+    env = Env(noise_key=life.KEY if noise else None)
+    calls: list = []
+    got_states: list = []
+    how = case["end"]
+
+    async def on_stop(expected):
+        calls.append((env.loop.now(), expected))
+
+    async def helper():
+        cli = make_client(env, noise_psk=base64.b64encode(life.KEY).decode() if noise else None, keepalive=K)
+        await cli.connect(on_stop=on_stop, login=bool(case.get("login", True)))
+        if case.get("subscribe", True):
+            cli.subscribe_states(lambda st_: got_states.append(type(st_).__name__))
+        # ... and returns: the only reference to the client was this frame's
+
+    async def main():
+        await helper()
+        gc.collect()
+        env.log("connected")
+
+    def end():
+        s = env.dev.session
+        tr = s.transport
+        if tr.closing:
+            return
+        env.log("end_injected", how=how)
+        if how == "eof":
+            tr.feed_eof()
+        elif how == "reset":
+            tr.reset()
+        elif how == "discreq":
+            tr.feed(s.encode(pb.DisconnectRequest()))
+        elif how == "garbage":
+            tr.feed(b"\x07\x07\x07" if not noise else b"\x02\x00\x00")
+        elif how == "silence":
+            env.dev.auto = set()
+
+    env.loop.sim_at(0, lambda: env.spawn("main", main()))
+    env.loop.sim_at(float(case.get("end_at", 3.0)), lambda: (gc.collect(), end()))
+    env.loop.horizon = START + float(case.get("end_at", 3.0)) + 8 * K
+    try:
+        env.run()
+    except IterationCap as e:
+        env.close()
+        raise HarnessError(f"C07 dropped: {e}") from e
+    r = env.results.get("main")
+    if r is None or r[0] != "ok":
+        env.close()
+        raise HarnessError(f"C07 dropped: connect did not succeed: {r}")
+    want = how == "discreq"
+    if [c[1] for c in calls] != [want]:
+        res.violations.append(Violation(ID, f"c07:on_stop-count:{len(calls)}:client-not-kept-by-the-application",
+                                        f"session ended by {how} after the application dropped its APIClient reference: stop callback calls {calls}, expected exactly one with {want}"))
+    res.classes = ["client_not_kept", "end_" + how] + (["noise"] if noise else [])
+    res.nontrivial = True
+    res.info = {"calls": calls, "end": how}
+    env.close()
+    return res
+
+
 def run_case(case):
     if case.get("kind") == "chain":
         return run_chain(case)
+    if case.get("kind") == "dropped":
+        return run_dropped(case)
     res = run_with(ID, case)
     res.nontrivial = "reached_connected" in res.classes and "two_or_more_close_causes" in res.classes
     return res
@@ -195,11 +273,20 @@ def _chain(draw, tier):
         {"end": draw(st.sampled_from(["discreq", "reset", "eof", "disconnect", "force"])), "next": draw(st.sampled_from(["in_handler", "in_handler", "in_handler_after_await", "outside"]))} for _ in range(n)]}
 
 
+@st.composite
+def _dropped(draw, tier):
+    return {"kind": "dropped", "noise": draw(st.booleans()), "login": draw(st.booleans()), "subscribe": draw(st.booleans()), "K": draw(st.sampled_from([1.0, 4.0])),
+            "end": draw(st.sampled_from(["eof", "reset", "discreq", "garbage", "silence"])), "end_at": draw(st.sampled_from([0.5, 3.0, 9.0]))}
+
+
 def strategy(tier):
-    return st.one_of(_biased(tier), _biased(tier), _multi_cause(tier), _multi_cause(tier), _chain(tier))
+    return st.one_of(_biased(tier), _biased(tier), _multi_cause(tier), _multi_cause(tier), _chain(tier), _dropped(tier))
 
 
 def enumerated(tier):
+    for how in ("eof", "reset", "discreq", "garbage", "silence"):
+        for noise in (False, True):
+            yield {"kind": "dropped", "noise": noise, "login": True, "subscribe": noise, "K": 1.0, "end": how, "end_at": 3.0}
     for e1 in ("discreq", "reset", "eof", "disconnect", "force"):
         for nxt in ("in_handler", "in_handler_after_await", "outside"):
             for e2 in ("discreq", "reset", "force"):
